@@ -14,7 +14,7 @@
 Require Import Arith List Bool QArith Qcanon.
 From TK Require Import Mat_Sums Mat_Core Mat_Qc Mat_EigSelect Spectral_KyFan Pencil_Model Pencil_Spec
      Pencil_Proof_Sums Pencil_Proof Pencil_Proof_Rot Pencil_Proof_KyFan Pencil_Proof_Qc
-     EigSelect Pencil_Proof_Tie.
+     EigSelect Pencil_Proof_Tie Pencil_Proof_Unique.
 Import ListNotations.
 Local Open Scope F_scope.
 
@@ -307,6 +307,37 @@ Theorem normalised_multiple_is_plus_or_minus :
 Proof. exact (@normalised_multiple_is_sign). Qed.
 Print Assumptions normalised_multiple_is_plus_or_minus.
 
+(* in a simple eigenvalue the B-normalised eigenvector is unique up to sign ... *)
+Theorem eigenvector_unique_up_to_sign :
+  forall (F : Type) (Fo : FieldOps F) (Ff : IsField F) D (A B V : mat F) (lam q : vec F) (mu : F) j,
+    full_contract0 D A B V lam -> (j < D)%nat ->
+    (forall t, (t < D)%nat -> t <> j -> lam t <> mu) ->
+    (forall i, (i < D)%nat -> mv D A q i = mu * mv D B q i) ->
+    dot D q (mv D B q) = 1 ->
+    exists c, c * c = 1 /\ (c <> 1 -> c = - (1)) /\ forall i, (i < D)%nat -> q i = c * V i j.
+Proof. exact (@Pencil_Proof_Unique.eigenvector_unique_up_to_sign). Qed.
+Print Assumptions eigenvector_unique_up_to_sign.
+
+(* ... hence whatever decomposition (V', lam') the solver returns for the pencil of R X, its column in a
+   simple eigenvalue lam_j is + or - R v_j: "rotating the feature space rotates the projection matrix ...
+   up to per-column sign" *)
+Theorem rotated_projection_up_to_sign :
+  forall (F : Type) (Fo : FieldOps F) (Ff : IsField F) D (R A B V V' : mat F) (lam lam' : vec F) j j',
+    orthogonal D R ->
+    full_contract0 D A B V lam ->
+    full_contract0 D (conj_by D R A) (conj_by D R B) V' lam' ->
+    (j < D)%nat -> (j' < D)%nat ->
+    (forall t, (t < D)%nat -> t <> j' -> lam' t <> lam j) ->
+    exists c, c * c = 1 /\ (c <> 1 -> c = - (1)) /\
+              forall i, (i < D)%nat -> V' i j' = c * mmul D R V i j.
+Proof. exact (@rotated_eigenvector_up_to_sign). Qed.
+Print Assumptions rotated_projection_up_to_sign.
+
+Example unique_nonvacuous :
+  full_contract0 2 (npe_lhs 2 eX eW) (npe_rhs 2 eX) eV elam /\ (0 < 2)%nat /\
+  (forall t, (t < 2)%nat -> t <> 0%nat -> elam t <> elam 0%nat) /\ orthogonal 2 rR.
+Proof. exact (conj e_full_contract0 (conj (le_S 1 1 (le_n 1)) (conj e_simple rR_orthogonal))). Qed.
+
 Example sign_nonvacuous :
   (forall j, (j < 1)%nat -> (fun _ : nat => (- (1))%F) j * (fun _ : nat => (- (1))%F) j = (1 : Qc)) /\
   gen_eig_solution 2 1 (npe_lhs 2 eX eW) (npe_rhs 2 eX) eV elam.
@@ -392,6 +423,18 @@ Theorem model_stays_in_range :
 Proof. exact model_in_range. Qed.
 Print Assumptions model_stays_in_range.
 
+(* the exact stream J: compute_mean + project on lists *)
+Theorem project_stream_spec :
+  forall N D d Xl Pl ml Yl,
+    run_project N D d Xl Pl = Ok (ml, Yl) ->
+    N <> 0%nat /\
+    ml = vtab D (compute_mean (mof Xl) N) /\
+    Yl = mtab N d (fun s j => dot D (mcol (mof Pl) j) (vsub (fvec (mof Xl) s) (compute_mean (mof Xl) N))) /\
+    (forall j, (j < d)%nat -> sumn N (fun s => mof Yl s j) = 0).
+Proof. exact run_project_spec. Qed.
+Print Assumptions project_stream_spec.
+
 Example model_nonvacuous :
-  exists lhs rhs, run_construct VF42 NPE 2 2 [[qz 1; qz 1]; [qz 0; qz 1]] wW [] = Ok (lhs, rhs).
-Proof. exact e_run. Qed.
+  (exists lhs rhs, run_construct VF42 NPE 2 2 [[qz 1; qz 1]; [qz 0; qz 1]] wW [] = Ok (lhs, rhs)) /\
+  (exists ml Yl, run_project 2 2 1 [[qz 1; qz 3]; [qz 2; qz (-1)]] [[qfrac 1 2]; [qz 4]] = Ok (ml, Yl)).
+Proof. exact (conj e_run e_run_project). Qed.
